@@ -129,7 +129,9 @@ def c20(tier, rng):
     cli = []
     L = 2 if tier == 'quick' else 3
     for n in range(1, L + 1):
-        for seq in itertools.product(range(len(pool) - 1), repeat=n):
+        # triples (thorough) over a third of the pool, chosen across all kinds of line: the full cube would be a million sessions
+        idx = range(len(pool) - 1) if n <= 2 else [i for i in range(len(pool) - 1) if i % 3 == 0]
+        for seq in itertools.product(idx, repeat=n):
             for pr in (probes if n <= 1 or tier == 'thorough' else probes[:2]):
                 lines = [pool[i] for i in seq] + [pr]
                 cli.append(CliCase('session', [], {}, ('\n'.join(lines) + '\n').encode(), None, note=(len(lines), pr)))
@@ -164,7 +166,7 @@ def c20(tier, rng):
     # the response to each probe as the first line of a fresh session
     for pr in probes + probes_fn + ['1 + 1;']:
         cli.append(CliCase('fresh-probe', [], {}, (pr + '\n').encode(), None, note=pr))
-    rule = (f'every session of <= {L} lines over a pool of {len(pool) - 1} representative lines (statements, bare expressions of every kind, lexical / syntax / runtime errors incl. out-of-range literals in both scripts and an open comment, lines that look like commands of a shell or another REPL (exit, quit, :q, help, a trailing backslash, a shebang), assignments to built-in names, stray signals, blank and comment lines) '
+    rule = (f'every session of <= {min(L, 2)} lines (thorough: also every triple over a third of the pool) over a pool of {len(pool) - 1} representative lines (statements, bare expressions of every kind, lexical / syntax / runtime errors incl. out-of-range literals in both scripts and an open comment, lines that look like commands of a shell or another REPL (exit, quit, :q, help, a trailing backslash, a shebang), assignments to built-in names, stray signals, blank and comment lines) '
             f'followed by a probe line that uses only literals and built-ins (and by three probes that define and call a function ending in a bare return, no return, a loop exit); {m} random sessions of 4..28 lines; {len(hist)} long histories of failure (thousands of failing lines, lines failing up to {100000 if tier == "thorough" else 40000} calls deep; implementation alone) before each probe; a 70 000-character line; missing final newline, CRLF, empty input. Compared with the model (stdout split at the prompts, stderr, status 0); '
             'on the implementation alone: the probe answers exactly as in a fresh session. Non-trivial = every session.')
     return {'cli': cli, 'cases': [], 'rule': rule, 'exhaustive': True, 'cli_oracles': [cli_oracle_c20], 'cli_timeout': 20}
